@@ -941,6 +941,55 @@ def tsan_part(run, r, tcases, rcases, d):
 
 
 # ------------------------------------------------------------------------------------------------
+# OPES threaded kernel sums (exploration, thorough tier): the only inner parallel loops in the library are in
+# colvarbias_opes.cpp, compiled only with -DOPES_THREADING (never defined by the normal build) and active under
+# `smp inner_loop`.  Build that variant when it compiles and run the thread-count oracle on it.
+# ------------------------------------------------------------------------------------------------
+def opes_scenario(r, smp_key):
+    L = ["natoms 8", "temperature 300", "dt 1", "smp %s 1" % ("serial" if smp_key is None else "omp"), "new", "config EOF"]
+    if smp_key:
+        L += ["smp %s" % smp_key]
+    for v in range(2):
+        L += ["colvar {", "  name v%d" % v, "  lowerBoundary 0", "  upperBoundary 20", "  width 0.5", "  distance {",
+              "    group1 { atomNumbers %d %d }" % (4 * v + 1, 4 * v + 2), "    group2 { atomNumbers %d %d }" % (4 * v + 3, 4 * v + 4), "  }", "}"]
+    L += ["opes_metad {", "  name o", "  colvars v0 v1", "  newHillFrequency 1", "  barrier 10.0", "  gaussianSigma 0.3 0.3", "  compressionThreshold 0", "}",
+          "EOF", "show af 1"]
+    rr = V.rng("C12opes")
+    pos = [[rr.uniform(-4, 4) for _ in range(3)] for _ in range(8)]
+    for t in range(40):
+        for a in range(8):
+            for q in range(3):
+                pos[a][q] += rr.uniform(-0.3, 0.3)
+            L.append("pos %d %s %s %s" % (a + 1, V.hexf(pos[a][0]), V.hexf(pos[a][1]), V.hexf(pos[a][2])))
+        L.append("step")
+    return L + ["endcase 0"]
+
+
+def opes_threading_part(run, r, d):
+    V.CXX_VARIANTS.setdefault("opesthr", ["-O1", "-g0", "-DOPES_THREADING"])
+    try:
+        sim = V.build_prog("c12sim_opesthr", PROGS["c12sim"], variant="opesthr")
+    except V.InfraError as e:
+        run.notes.append("OPES_THREADING variant does not build from this tree (exploration skipped): %s" % str(e).strip().split("\n")[-1][:200])
+        run.dist("opes-threading: variant does not compile")
+        return
+    ref = V.run_lines(sim, opes_scenario(r, None), cwd=d, env={"OMP_NUM_THREADS": "1"})[1]
+    if not any(l.startswith("CONFIG err=ok") for l in ref):
+        run.notes.append("OPES scenario rejected by the OPES_THREADING variant")
+        return
+    for nt in (1, 2, 4):
+        out = V.run_lines(sim, opes_scenario(r, "inner_loop"), cwd=d, env={"OMP_NUM_THREADS": str(nt), "OMP_DYNAMIC": "false"})[1]
+        run.count("opes-threading:%d" % nt, nt > 1)
+        run.dist("opes-threading: runs")
+        df = first_diff(out, ref)
+        if df:
+            run.violation("opes-threading:thread-count-dependent-sums",
+                          "library built with -DOPES_THREADING, opes_metad on two distances, `smp inner_loop`, OMP_NUM_THREADS=%d: step %d prints `%s`, the serial run `%s`" % (
+                              nt, step_of_line(out, df[0]), df[1], df[2]), {"kind": "opes", "threads": nt, "scenario": opes_scenario(r, "inner_loop")})
+            break
+
+
+# ------------------------------------------------------------------------------------------------
 # footprints derived from the implementation -> coq/Gen/GenFootC12.v (regenerated-table theorems)
 # ------------------------------------------------------------------------------------------------
 def coq_z(x):
@@ -1104,7 +1153,7 @@ def check(run):
         "an execution is modelled as an interleaving of atomic items; finer-grained interleavings of the real threads are covered by the footprint argument, not by a theorem about the C++ memory model",
     ]
     d = V.scratch("C12")
-    gen = [gen_tcase(r, k) for k in range(300 if quick else 4000)]
+    gen = [gen_tcase(r, k) for k in range(200 if quick else 4000)]
     # footprints derived from the rebuilt binary -> coq/Gen/GenFootC12.v, BEFORE the proofs are checked
     derived = []
     try:
@@ -1138,7 +1187,7 @@ def check(run):
     B = 200
     for b0 in range(0, len(tc), B):
         tie_part(run, r, model, sim, tc[b0:b0 + B], d)
-    rc = [gen_rcase(r, k) for k in range(80 if quick else 1200)]
+    rc = [gen_rcase(r, k) for k in range(50 if quick else 1200)]
     rich_part(run, r, sim, rc, d)
     # the library's own OpenMP modes x thread counts: every component kind once (round robin), then random mixtures
     lc = [gen_lcase(r, k, kinds=[sorted(set(LKINDS))[k % len(set(LKINDS))]]) for k in range(len(set(LKINDS)))]
@@ -1149,9 +1198,10 @@ def check(run):
     run.cov["correspondence"].update({"t_scenarios": len(tc), "r_scenarios": len(rc)})
     # ThreadSanitizer with the std::thread executor: a few scenarios in the quick tier, more in the thorough tier
     if quick:
-        tsan_part(run, r, tc[:10], rc[:8], d)
+        tsan_part(run, r, tc[:8], rc[:6], d)
     else:
         tsan_part(run, r, tc[:120], rc[:150], d)
+        opes_threading_part(run, r, d)
 
 
 def replay(path):
@@ -1190,6 +1240,8 @@ def replay(path):
         b = V.run_lines(sim, lcase_scenario(c, None, "B"), cwd=d, env=envs(1))[1]
         print("smp %s, OMP_NUM_THREADS=%s vs serial single thread; first difference:" % (rp["mode"], rp["threads"]), first_diff(strip_items(a), strip_items(b)))
         print("---- scenario (run with OMP_NUM_THREADS=%s):\n" % rp["threads"] + "\n".join(lcase_scenario(c, rp["mode"], "A")))
+    elif rp.get("kind") == "opes":
+        print("build the library with -DOPES_THREADING, run with OMP_NUM_THREADS=%s:\n" % rp["threads"] + "\n".join(rp["scenario"][:40]) + "\n...")
     elif rp.get("kind") == "errbits":
         print(rp.get("line") or "\n".join(rp.get("scenario") or []))
     elif rp.get("kind") == "depth":
